@@ -199,3 +199,5 @@ func VerifHarness_C15_ZoneSuffixIsKept() {
 	verifrt.Assert(ok, "zone-renders-as-written")
 	verifrt.Reach("end")
 }
+
+func VerifHarness_C15_NumericOffsetsOfEitherSign() { verifNumericOffsets() }
